@@ -293,8 +293,10 @@ optGroup H5Group::openOptGroup(const std::string &name) {
 
 
 void H5Group::removeGroup(const std::string &name) {
-    if (hasGroup(name))
-        H5Gunlink(hid, name.c_str());
+    if (hasGroup(name)) {
+        HErr res = H5Gunlink(hid, name.c_str());
+        res.check("H5Group::removeGroup: Could not remove group: " + name);
+    }
 }
 
 
@@ -302,7 +304,8 @@ void H5Group::renameGroup(const std::string &old_name, const std::string &new_na
     check_h5_arg_name(new_name);
 
     if (hasGroup(old_name)) {
-        H5Gmove(hid, old_name.c_str(), new_name.c_str()); //FIXME: H5Gmove is deprecated
+        HErr res = H5Gmove(hid, old_name.c_str(), new_name.c_str()); //FIXME: H5Gmove is deprecated
+        res.check("H5Group::renameGroup: Could not rename group: " + old_name);
     }
 }
 
